@@ -5,7 +5,8 @@ class C01(ProgProp):
     id = "C01"
     report = ("C01",)
     cfg = {"p_sync": 0.12, "p_try": 0.08, "p_ctx": 0.06, "p_sv": 0.06, "p_fault": 0.15, "item_faults": 0.05,
-           "p_timer": 0.02, "p_item_value_sync": 0.2}
+           "p_timer": 0.02, "p_item_value_sync": 0.2, "flush_faults": 0.04, "flush_reenter": 0.3, "flush_cancels": 0.2,
+           "base_exc": 0.2, "p_item_eq": 0.15, "p_ext_tasks": 0.12}
 
 
 PROP = C01()
